@@ -1,5 +1,164 @@
-/- C15 — property theorems (to be written). -/
-import SoundeventModel.Basic
+/-
+  C15 — Audio-derived arrays are sample-accurate and their axes tell the truth.
+  Property theorems only (helper lemmas live in Proofs/Lemmas/Audio.lean).
+-/
+import SoundeventModel.Audio
+import Proofs.Lemmas.Audio
 namespace SE.Proofs.C15
+open SE SE.Audio
+
+/-! ### load_clip -/
+
+/-- the offset is `⌊start·samplerate⌋` (as a natural number once the start is not negative) -/
+theorem C15_offset_is_floor (sr : Nat) (s : Rat) (h0 : 0 ≤ s) :
+    (((clipOffset sr s).toNat : Nat) : Rat) ≤ s * sr ∧ s * sr < ((clipOffset sr s).toNat : Rat) + 1 := by
+  have hsr : (0 : Rat) ≤ sr := by exact_mod_cast Nat.zero_le sr
+  have hnn : 0 ≤ clipOffset sr s := by
+    unfold clipOffset; rw [Rat.le_floor_iff]; simpa using mul_nonneg h0 hsr
+  have hc : (((clipOffset sr s).toNat : Nat) : Rat) = (clipOffset sr s : Rat) := by
+    have : ((clipOffset sr s).toNat : Int) = clipOffset sr s := Int.toNat_of_nonneg hnn
+    exact_mod_cast this
+  rw [hc]
+  refine ⟨Rat.floor_le _, ?_⟩
+  have := Rat.lt_floor_add_one (s * sr)
+  push_cast at this; exact this
+
+/-- `load_clip` succeeds exactly for a well-formed clip that starts inside the file (or at its
+    very end): in particular the coordinate/data length conflict (`shape`) can never occur -/
+theorem C15_clip_loads (file : List Frame) (ch sr : Nat) (s e : Rat) :
+    (∃ a, loadClip file ch sr s e = .ok a) ↔
+      (s ≤ e ∧ 0 < sr ∧ 0 ≤ s ∧ s * sr < (file.length : Rat) + 1) := by
+  rw [loadClip_normal]
+  by_cases h1 : e < s
+  · simp [h1]
+  by_cases h2 : sr = 0
+  · simp [h1, h2]
+  have hsr : (0 : Rat) < sr := by exact_mod_cast Nat.pos_of_ne_zero h2
+  have ha : clipOffset sr s < 0 ↔ s < 0 := by
+    unfold clipOffset
+    rw [Rat.floor_lt_iff]
+    constructor
+    · intro h; by_contra hs; rw [not_lt] at hs
+      have := mul_nonneg hs hsr.le; simp at h; linarith
+    · intro h; simpa using mul_neg_of_neg_of_pos h hsr
+  have hb : (file.length : Int) < clipOffset sr s ↔ (file.length : Rat) + 1 ≤ s * sr := by
+    unfold clipOffset
+    rw [show ((file.length : Int) < (s * sr).floor) ↔ ((file.length : Int) + 1 ≤ (s * sr).floor) from Iff.rfl,
+      Rat.le_floor_iff]
+    push_cast; rfl
+  by_cases h3 : clipOffset sr s < 0 ∨ (file.length : Int) < clipOffset sr s
+  · simp only [h1, h2, h3, if_true, if_false]
+    simp only [reduceCtorEq, exists_false, false_iff, not_and, not_lt]
+    intro _ _ h0
+    rcases h3 with h3 | h3
+    · exact absurd (ha.mp h3) (not_lt.mpr h0)
+    · exact hb.mp h3
+  · simp only [h1, h2, h3, if_false]
+    rw [not_or, not_lt, not_lt] at h3
+    refine ⟨fun _ => ⟨not_lt.mp h1, Nat.pos_of_ne_zero h2, ?_, ?_⟩, fun _ => ⟨_, rfl⟩⟩
+    · by_contra hs; exact absurd (ha.mpr (lt_of_not_ge hs)) (not_lt.mpr h3.1)
+    · by_contra hs; exact absurd (hb.mpr (not_lt.mp hs)) (not_lt.mpr h3.2)
+
+
+/-- exactly `⌊duration × samplerate⌋` frames, and as many time stamps -/
+theorem C15_clip_length (file : List Frame) (ch sr : Nat) (s e : Rat) (a : TimeArray)
+    (h : loadClip file ch sr s e = .ok a) :
+    a.times.length = a.frames.length ∧
+    (a.frames.length : Rat) ≤ (e - s) * sr ∧ (e - s) * sr < (a.frames.length : Rat) + 1 := by
+  obtain ⟨hse, _, _, _, rfl⟩ := loadClip_ok file ch sr s e a h
+  simp only [lattice_length, readFrames_length, true_and]
+  rw [toNat_cast_of_nonneg _ (clipCount_nonneg sr s e hse)]
+  refine ⟨Rat.floor_le _, ?_⟩
+  have := Rat.lt_floor_add_one ((e - s) * sr)
+  push_cast at this; exact this
+
+/-- frame `i` of the clip is frame `off + i` of the file, a zero frame past the end of the file -/
+theorem C15_clip_frames (file : List Frame) (ch sr : Nat) (s e : Rat) (a : TimeArray)
+    (h : loadClip file ch sr s e = .ok a) (i : Nat) (hi : i < a.frames.length) :
+    a.frames[i] = if h' : (clipOffset sr s).toNat + i < file.length
+                  then file[(clipOffset sr s).toNat + i] else zeroFrame ch := by
+  obtain ⟨_, _, _, _, rfl⟩ := loadClip_ok file ch sr s e a h
+  exact readFrames_getElem ..
+
+/-- frame `i` carries time `(off + i)/samplerate`; the axis advertises `1/samplerate` -/
+theorem C15_clip_times (file : List Frame) (ch sr : Nat) (s e : Rat) (a : TimeArray)
+    (h : loadClip file ch sr s e = .ok a) :
+    a.step = 1 / sr ∧
+    ∀ i (hi : i < a.times.length), a.times[i] = (((clipOffset sr s).toNat + i : Nat) : Rat) / sr := by
+  obtain ⟨_, _, h0, _, rfl⟩ := loadClip_ok file ch sr s e a h
+  refine ⟨rfl, fun i hi => ?_⟩
+  simp only [lattice_getElem]
+  push_cast
+  rw [toNat_cast_of_nonneg _ h0]
+  ring
+
+/-- the axis starts on the sample boundary at or just before the requested start -/
+theorem C15_clip_start_snapped (file : List Frame) (ch sr : Nat) (s e : Rat) (a : TimeArray)
+    (h : loadClip file ch sr s e = .ok a) (h0 : 0 < a.times.length) :
+    a.times[0] ≤ s ∧ s - (1 : Rat) / (sr : Rat) < a.times[0] := by
+  obtain ⟨_, hsr, hnn, _, rfl⟩ := loadClip_ok file ch sr s e a h
+  have hsr' : (0 : Rat) < sr := by exact_mod_cast hsr
+  simp only [lattice_getElem]
+  have h1 := Rat.floor_le (s * sr)
+  have h2 := Rat.lt_floor_add_one (s * sr)
+  push_cast at h2
+  unfold clipOffset
+  constructor
+  · rw [show ((0 : Nat) : Rat) * (1 / (sr : Rat)) = 0 by simp, add_zero, div_le_iff₀ hsr']; exact h1
+  · rw [show ((0 : Nat) : Rat) * (1 / (sr : Rat)) = 0 by simp, add_zero, lt_div_iff₀ hsr']
+    have : (s - 1 / (sr : Rat)) * sr = s * sr - 1 := by field_simp
+    rw [this]; linarith
+
+/-! ### load_recording, and the clip as a window into it -/
+
+/-- `load_recording` succeeds with all `N` frames on the axis `j/samplerate` whenever
+    `duration × samplerate` is within half a sample of `N` (the trailing-point rule absorbs the
+    rounding of a stored float duration) -/
+theorem C15_recording_loads (file : List Frame) (sr : Nat) (d : Rat) (hsr : 0 < sr)
+    (h1 : (file.length : Rat) - 1 / 2 < d * sr) (h2 : d * sr ≤ (file.length : Rat) + 1 / 2) :
+    loadRecording file sr d = .ok ⟨file, lattice 0 (1 / sr) file.length, 1 / sr⟩ := by
+  have hsr' : (0 : Rat) < sr := by exact_mod_cast hsr
+  have hq : (d - 0) / (1 / (sr : Rat)) = d * sr := by rw [sub_zero]; field_simp
+  have hr := rangeDim_of_round 0 d (1 / sr) file.length (one_div_pos.mpr hsr')
+    (by rw [hq]; exact h1) (by rw [hq]; exact h2)
+  unfold loadRecording
+  rw [hr]
+  simp [Nat.ne_of_gt hsr, lattice_length]
+
+/-- … in particular for the recording `Recording.from_file` builds for that file, for every
+    time-expansion factor that keeps the samplerate whole -/
+theorem C15_recording_of_file (file : List Frame) (fsr : Nat) (te : Rat) (hf : 0 < fsr) (hte : 0 < te)
+    (hint : ∃ m : Nat, (fsr : Rat) * te = m) :
+    loadRecording file (recordingOf file.length fsr te).1 (recordingOf file.length fsr te).2 =
+      .ok ⟨file, lattice 0 (1 / ((fsr : Rat) * te)) file.length, 1 / ((fsr : Rat) * te)⟩ := by
+  obtain ⟨m, hm⟩ := hint
+  have hf' : (0 : Rat) < fsr := by exact_mod_cast hf
+  have hmpos : (0 : Rat) < m := by rw [← hm]; positivity
+  have hsr : (recordingOf file.length fsr te).1 = m := by
+    simp only [recordingOf, hm]
+    rw [truncZ_of_nonneg _ hmpos.le]
+    have : ((m : Nat) : Rat) = ((m : Int) : Rat) := by push_cast; rfl
+    rw [this, Rat.floor_intCast]; simp
+  have hd : (recordingOf file.length fsr te).2 * (m : Rat) = file.length := by
+    simp only [recordingOf]; rw [← hm]; field_simp
+  rw [hsr, hm]
+  exact C15_recording_loads file m (recordingOf file.length fsr te).2 (by exact_mod_cast hmpos)
+    (by rw [hd]; linarith) (by rw [hd]; linarith)
+
+/-- frame `i` of the clip and its time stamp are those of index `off + i` of the loaded recording -/
+theorem C15_clip_agrees_with_recording (file : List Frame) (ch sr : Nat) (s e d : Rat)
+    (c r : TimeArray) (hc : loadClip file ch sr s e = .ok c) (hr : loadRecording file sr d = .ok r)
+    (i : Nat) (hi : i < c.frames.length) (hin : (clipOffset sr s).toNat + i < file.length) :
+    ∃ (h1 : (clipOffset sr s).toNat + i < r.frames.length)
+      (h2 : (clipOffset sr s).toNat + i < r.times.length) (h3 : i < c.times.length),
+      c.frames[i] = r.frames[(clipOffset sr s).toNat + i] ∧
+      c.times[i] = r.times[(clipOffset sr s).toNat + i] := by
+  have hlen := (C15_clip_length file ch sr s e c hc).1
+  have hf := C15_clip_frames file ch sr s e c hc i hi
+  have ht := (C15_clip_times file ch sr s e c hc).2 i (by omega)
+  obtain ⟨_, rfl⟩ := loadRecording_ok file sr d r hr
+  refine ⟨hin, by simpa [lattice_length] using hin, by omega, ?_, ?_⟩
+  · rw [hf, dif_pos hin]
+  · rw [ht]; simp only [lattice_getElem]; ring
 
 end SE.Proofs.C15
